@@ -24,6 +24,7 @@ RULE = ("dumps = generated class shapes of C07 (dict / slotted / inherited / ser
         "content), given through Config and through dump() arguments. distinct = distinct (class shape, instance, "
         "ignore sets, handler table, naming, position); non-trivial = a bean was dumped and the structural oracle "
         "walked its output.")
+RULE += (" " + 'Also: the same value through the other routes (dumps request / response / Fault data, Fault.response, dispatcher answers to 2.0- and 1.0-form requests, a copied Config, a proxy call and a MultiCall of that proxy) compared with the direct dump; objects whose __class__ differs from their type (a __class__ property, weakref.proxy): handler of the real type used, handler of the claimed class not.')
 ASSUMPTIONS = [
     "generated values never equal an ignore entry (the library documents that the ignore attribute 'holds strings "
     "and/or references': a field whose VALUE equals an entry is dropped too)",
